@@ -108,7 +108,7 @@ pub fn gen_for_generator(rng: &mut Rng, idx: usize, risky_pct: usize, depth: usi
             }
             8 => {
                 // a declared error whose reply helper is spelled like one of CallTrait's
-                let n = *rng.pick(&["InvalidParameter", "MethodNotFound"]);
+                let n = *rng.pick(&["InvalidParameter", "MethodNotFound", "Struct", "Parameters"]);
                 if !idl.members.iter().any(|m| m.name == n) {
                     idl.members.push(Member { kind: MKind::Error, name: n.into(), comments: vec![], a: Ty::Struct(vec![("x".into(), Ty::Int)]), b: None });
                     risky = Some(("error-named-like-a-calltrait-reply".to_string(), n.to_string()));
@@ -136,6 +136,10 @@ pub fn gen_for_generator(rng: &mut Rng, idx: usize, risky_pct: usize, depth: usi
                     // named Self still yields the variant `ErrorKind::Self`
                     if kind == MKind::Error && n == "Self" {
                         risky = Some(("error-name-like-rust-keyword-or-prelude".to_string(), n.to_string()));
+                    }
+                    // `error Struct` adds `reply_struct` beside CallTrait's own
+                    if kind == MKind::Error && n == "Struct" {
+                        risky = Some(("error-named-like-a-calltrait-reply".to_string(), n.to_string()));
                     }
                 }
             }
@@ -358,7 +362,7 @@ pub fn c09_main(ctx: &Ctx, repo_bin_dir: Option<String>) -> i32 {
     let n = ctx.tier.pick(60usize, 1500usize);
     let per_crate = 20usize;
     let mut rng = Rng::new(ctx.seed ^ 0x909);
-    let root = gen_root().join(format!("c09-{}", ctx.seed));
+    let root = gen_root().join(format!("c09-{}-{}", ctx.seed, std::process::id()));
     let _ = std::fs::remove_dir_all(&root);
     std::fs::create_dir_all(&root).unwrap();
     let cli = repo_bin_dir.map(|d| format!("{}/varlink-rust-generator", d));
@@ -731,7 +735,7 @@ pub fn c09_replay(ctx: &Ctx, w: &Value) {
     match emit(text, true) {
         Emit::Ok(code) => {
             println!("emitted {} bytes; checking with rustc", code.len());
-            let root = gen_root().join("c09-replay");
+            let root = gen_root().join(format!("c09-replay-{}", std::process::id()));
             let g = GenIdl { idl: Idl { name: String::new(), comments: vec![], members: vec![] }, text: text.to_string(), risky: None };
             check_batch(ctx, &root, 0, &[(0, g, code)]);
             let _ = std::fs::remove_dir_all(&root);
